@@ -93,10 +93,22 @@ type CaseJ struct {
 	Cx    Num     `json:"cx"`
 	Gate  []GateJ `json:"gate"`
 	Table []RowJ  `json:"table"` // only the "no operation" case of the bind corpus
+	// only the iface corpus: the selections of INTERFACE fields in the order the walker prices them
+	Occ []OccJ `json:"occ"`
 	// histories (ComplexityGate)
 	Cache    string  `json:"cache"`
 	NDefault int64   `json:"ndefault"` // default of $n, -1 = none
 	Hist     []HistJ `json:"hist"`
+}
+
+// OccJ is one priced occurrence of an interface field: its cost, the possible types whose field rule attains
+// it (the argmax), and what the occurrence hands to the cost functions.
+type OccJ struct {
+	Key string   `json:"key"` // Interface.field
+	V   Num      `json:"v"`
+	Am  []string `json:"am"`
+	Ch  Num      `json:"ch"`
+	X   int64    `json:"x"`
 }
 
 type FieldA struct {
@@ -118,6 +130,7 @@ type TypeA struct {
 type SchemaA struct {
 	Schema map[string]*TypeA `json:"schema"`
 	ArgVal int64             `json:"argval"`
+	BigArg int64             `json:"bigarg"` // the value of an argument of class "big"
 	Max    Num               `json:"max"`
 	// Binding[T][f] = the entry serving the GraphQL field T.f (the initial value of the state variable bnd)
 	Binding map[string]map[string]string `json:"binding"`
@@ -308,6 +321,12 @@ type Conc struct {
 	TableExp []CellExp `json:"table_exp,omitempty"`
 	// the operation goes through a field that is NOT the first-declared one of a shared ComplexityRoot entry
 	NonFirst bool `json:"non_first_shared,omitempty"`
+	// iface corpus: the operation selects one interface field at least twice; two occurrences of one interface
+	// field have DISJOINT sets of most expensive implementors; and which of those two the walker prices first
+	IfaceRep   bool   `json:"iface_repeated,omitempty"`
+	IfaceAMD   bool   `json:"iface_argmax_differs,omitempty"`
+	IfaceOrder string `json:"iface_order,omitempty"` // cheap-first | expensive-first
+	IfaceHow   string `json:"iface_how,omitempty"`   // siblings | fragment | nested
 }
 
 // CellExp is the prescribed answer of ExecutableSchema.Complexity for one probe.
@@ -321,6 +340,7 @@ type renderer struct {
 	s       *SchemaA
 	r       *rand.Rand
 	argMode string // lit | var | vdef
+	keep    bool   // keep the sibling order of the tree (iface corpus: the order is part of the input)
 	frags   map[string]string
 	fragDef []string
 	nAlias  *int
@@ -333,6 +353,11 @@ type renderer struct {
 
 func (rd *renderer) sels(tn string, sels []SelJ) string {
 	order := rd.r.Perm(len(sels))
+	if rd.keep {
+		for i := range order {
+			order[i] = i
+		}
+	}
 	parts := make([]string, 0, len(sels))
 	for _, i := range order {
 		parts = append(parts, rd.sel(tn, sels[i]))
@@ -366,21 +391,25 @@ func (rd *renderer) sel(tn string, s SelJ) string {
 			}
 			out += "(x: $n)"
 		}
-		if s.Ax == "set" {
+		if s.Ax == "set" || s.Ax == "big" {
+			val := rd.s.ArgVal
+			if s.Ax == "big" {
+				val = rd.s.BigArg
+			}
 			switch rd.argMode {
 			case "var":
 				*rd.nVar++
 				v := fmt.Sprintf("v%d", *rd.nVar)
 				rd.decls = append(rd.decls, fmt.Sprintf("$%s: Int", v))
-				rd.vars[v] = rd.s.ArgVal
+				rd.vars[v] = val
 				out += fmt.Sprintf("(x: $%s)", v)
 			case "vdef":
 				*rd.nVar++
 				v := fmt.Sprintf("v%d", *rd.nVar)
-				rd.decls = append(rd.decls, fmt.Sprintf("$%s: Int = %d", v, rd.s.ArgVal))
+				rd.decls = append(rd.decls, fmt.Sprintf("$%s: Int = %d", v, val))
 				out += fmt.Sprintf("(x: $%s)", v)
 			default:
-				out += fmt.Sprintf("(x: %d)", rd.s.ArgVal)
+				out += fmt.Sprintf("(x: %d)", val)
 			}
 		}
 		if _, composite := rd.s.Schema[fd.Type]; composite {
@@ -423,6 +452,9 @@ func shapeOf(sels []SelJ) string {
 		if s.Ax == "set" {
 			p += "(x)"
 		}
+		if s.Ax == "big" {
+			p += "(X)"
+		}
 		if len(s.Sels) > 0 {
 			p += "{" + shapeOf(s.Sels) + "}"
 		}
@@ -447,6 +479,57 @@ func costClass(cs []CostJ) string {
 	return strings.Join(parts, "+")
 }
 
+// costClassFull names every (entry, function) of an assignment (iface corpus: WHICH implementor carries which
+// function is what matters).
+func costClassFull(cs []CostJ) string {
+	parts := []string{}
+	for _, c := range cs {
+		p := c.Slot + "=" + c.Fn.K
+		if c.Fn.K == "const" || c.Fn.K == "add" {
+			p += ":" + numClass(c.Fn.C)
+		}
+		if c.Fn.K == "mul" {
+			p += fmt.Sprint(c.Fn.M)
+		}
+		parts = append(parts, p)
+	}
+	sort.Strings(parts)
+	return strings.Join(parts, "+")
+}
+
+// occClass reads the occurrence list of an iface case (walker order): is one interface field priced at least
+// twice, do two occurrences of one field have disjoint argmax sets, and is the one priced first the cheaper.
+func occClass(occ []OccJ) (repeated, argmaxDiffers bool, order string) {
+	for i := range occ {
+		for j := i + 1; j < len(occ); j++ {
+			if occ[i].Key != occ[j].Key {
+				continue
+			}
+			repeated = true
+			disjoint := len(occ[i].Am) > 0 && len(occ[j].Am) > 0
+			for _, a := range occ[i].Am {
+				for _, b := range occ[j].Am {
+					if a == b {
+						disjoint = false
+					}
+				}
+			}
+			if disjoint && !argmaxDiffers {
+				argmaxDiffers = true
+				switch vi, vj := conc(occ[i].V), conc(occ[j].V); {
+				case vi < vj:
+					order = "cheap-first"
+				case vi > vj:
+					order = "expensive-first"
+				default:
+					order = "equal"
+				}
+			}
+		}
+	}
+	return
+}
+
 func limRel(l, cx int64) string {
 	switch {
 	case l == cx:
@@ -469,7 +552,7 @@ func concretise(s *SchemaA, src string, idx int, c *CaseJ, decoys []*CaseJ, r *r
 	var fragDefs []string
 	renderOp := func(name string, t *CaseJ, vars map[string]any) string {
 		// fragments are shared within one operation (their variables are that operation's)
-		rd := &renderer{s: s, r: r, argMode: argMode, frags: map[string]string{}, nAlias: &nA, nVar: &nV, nFrag: &nF, vars: vars}
+		rd := &renderer{s: s, r: r, argMode: argMode, frags: map[string]string{}, nAlias: &nA, nVar: &nV, nFrag: &nF, vars: vars, keep: src == "iface"}
 		body := rd.sels("Query", t.Sels)
 		fragDefs = append(fragDefs, rd.fragDef...)
 		head := ""
@@ -520,6 +603,18 @@ func concretise(s *SchemaA, src string, idx int, c *CaseJ, decoys []*CaseJ, r *r
 		NonFirst: nonFirstShared(s, "Query", c.Sels)}
 	cc.Case = ur.C14Case{Cmd: "c14", ID: fmt.Sprintf("%s-%d-%s", src, idx, argMode), Query: doc, OpName: opName, Vars: vars,
 		Costs: map[string]ur.C14Cost{}, Fixed: fixed}
+	if src == "iface" {
+		cc.CostCls = costClassFull(c.Costs)
+		cc.IfaceRep, cc.IfaceAMD, cc.IfaceOrder = occClass(c.Occ)
+		switch {
+		case strings.Contains(cc.Shape, "inner{"):
+			cc.IfaceHow = "nested"
+		case strings.Contains(cc.Shape, "~") || strings.Contains(cc.Shape, "..."):
+			cc.IfaceHow = "fragment"
+		default:
+			cc.IfaceHow = "siblings"
+		}
+	}
 	for _, k := range c.Costs {
 		cc.Case.Costs[k.Slot] = ur.C14Cost{K: k.Fn.K, C: conc(k.Fn.C), M: k.Fn.M}
 	}
@@ -681,7 +776,7 @@ func repeatedSpread(q string) bool {
 
 func hasArgSet(sels []SelJ) bool {
 	for _, s := range sels {
-		if s.Ax == "set" || hasArgSet(s.Sels) {
+		if s.Ax == "set" || s.Ax == "big" || hasArgSet(s.Sels) {
 			return true
 		}
 	}
@@ -704,6 +799,9 @@ type counters struct {
 	// the limit; "during" requests and calculations where the k-th custom function really ran and cancelled;
 	// Calculate calls under a non-live context
 	ctxPre, ctxDuring, ctxOver, ctxWithin, ctxWithinExecuted, duringFired, calcCtx, calcCtxDuringFired int64
+	// one interface field selected several times in one operation: cases; of them with disjoint argmax sets; of
+	// those cheap occurrence priced first / expensive first, through fragments, nested; their requests over / within
+	ifaceRep, ifaceAMD, ifaceCheapFirst, ifaceExpFirst, ifaceAMDFrag, ifaceAMDNested, ifaceAMDRej, ifaceAMDAdm int64
 	keyCount                                                                                           map[string]int
 	sampled                                                                                            map[string]bool
 	tableSeen                                                                                          map[string]bool // table violation keys already reported (one report per key)
@@ -825,6 +923,15 @@ func judge(c *vlib.Check, k *counters, binding string, probe bool, cc *Conc, res
 			continue
 		}
 		isRejected := len(r.Errors) > 0 && !r.HasData
+		if cc.IfaceAMD {
+			k.add(func() {
+				if cc.Rej[i] {
+					k.ifaceAMDRej++
+				} else {
+					k.ifaceAMDAdm++
+				}
+			})
+		}
 		if cc.NonFirst {
 			k.add(func() {
 				if cc.Rej[i] {
@@ -905,7 +1012,28 @@ func judge(c *vlib.Check, k *counters, binding string, probe bool, cc *Conc, res
 		if cc.NonFirst {
 			k.nonFirst++
 		}
+		if cc.IfaceRep {
+			k.ifaceRep++
+		}
+		if cc.IfaceAMD {
+			k.ifaceAMD++
+			switch cc.IfaceOrder {
+			case "cheap-first":
+				k.ifaceCheapFirst++
+			case "expensive-first":
+				k.ifaceExpFirst++
+			}
+			switch cc.IfaceHow {
+			case "fragment":
+				k.ifaceAMDFrag++
+			case "nested":
+				k.ifaceAMDNested++
+			}
+		}
 	})
+	if cc.IfaceAMD {
+		c.Class("iface-argmax-differs|" + cc.IfaceOrder + "|" + cc.IfaceHow + "|" + cc.Shape + "|" + cc.CostCls)
+	}
 }
 
 // judgeTable compares what ExecutableSchema.Complexity answered with the table the specification prescribes.
@@ -1255,7 +1383,11 @@ func main() {
 	if thorough {
 		gateCfg = "MC_ComplexityGate_thorough.cfg"
 	}
-	var small, thm, grid, gen, frag, gate, bind, gctx *tlcOut
+	ifaceCfg := "MC_Complexity_iface.cfg"
+	if thorough {
+		ifaceCfg = "MC_Complexity_iface_thorough.cfg"
+	}
+	var small, thm, grid, gen, frag, gate, bind, gctx, iface *tlcOut
 	var wg sync.WaitGroup
 	wg.Add(6)
 	go func() {
@@ -1270,9 +1402,11 @@ func main() {
 	go func() { defer wg.Done(); thm = runTLC(thmCfg, "tlc-thm", 2, false, false, 40*time.Minute) }()
 	go func() {
 		defer wg.Done()
-		// two short runs one after the other (at most six TLC processes at a time)
+		// short runs one after the other (at most six TLC processes at a time)
 		grid = runTLC("MC_Complexity_grid.cfg", "tlc-grid", 1, true, false, 10*time.Minute)
 		bind = runTLC("MC_Complexity_bind.cfg", "tlc-bind", 1, true, false, 15*time.Minute)
+		// one interface field selected several times in one operation (three short runs in this slot)
+		iface = runTLC(ifaceCfg, "tlc-iface", 1, true, false, 25*time.Minute)
 	}()
 	go func() {
 		defer wg.Done()
@@ -1284,7 +1418,7 @@ func main() {
 	if thm.res.Distinct != gen.res.Distinct {
 		vlib.Infra("the theorem run (%d states) and the emission run (%d states) explored different state spaces", thm.res.Distinct, gen.res.Distinct)
 	}
-	for _, t := range []*tlcOut{small, thm, grid, gen, frag, gate, bind, gctx} {
+	for _, t := range []*tlcOut{small, thm, grid, gen, frag, gate, bind, gctx, iface} {
 		c.AddStates(t.res.Distinct, t.res.Generated)
 	}
 	if thorough {
@@ -1296,6 +1430,7 @@ func main() {
 	}
 	fmt.Fprintf(os.Stderr, "TLC: frag %d cases %.0fs, %s %d histories (%d states) %.0fs\n", len(frag.cases), frag.res.WallS, gateCfg, len(gate.cases), gate.res.Distinct, gate.res.WallS)
 	fmt.Fprintf(os.Stderr, "TLC: gate/ctx %d histories (%d states) %.0fs\n", len(gctx.cases), gctx.res.Distinct, gctx.res.WallS)
+	fmt.Fprintf(os.Stderr, "TLC: iface %d cases (%d states) %.0fs\n", len(iface.cases), iface.res.Distinct, iface.res.WallS)
 	fmt.Fprintf(os.Stderr, "TLC: bind %d cases (%d states) %.0fs\n", len(bind.cases), bind.res.Distinct, bind.res.WallS)
 	fmt.Fprintf(os.Stderr, "TLC: small %d states %.0fs, theorems %s %d states %.0fs, grid %d cases %.0fs, %s %d cases %.0fs\n",
 		small.res.Distinct, small.res.WallS, thmCfg, thm.res.Distinct, thm.res.WallS, len(grid.cases), grid.res.WallS, genCfg, len(gen.cases), gen.res.WallS)
@@ -1371,6 +1506,21 @@ func main() {
 		vlib.Infra("the corpora were generated under different bindings")
 	}
 	add("bind", bindOps)
+	// one interface field selected several times: the specification must have delivered occurrence lists, and
+	// operations in which the most expensive implementor differs between two occurrences, in both orders
+	if fmt.Sprint(iface.schema.Binding) != fmt.Sprint(schemaA.Binding) || schemaA.BigArg <= schemaA.ArgVal {
+		vlib.Infra("the iface corpus was generated under another schema (bigarg %d, argval %d)", schemaA.BigArg, schemaA.ArgVal)
+	}
+	nIfaceAMD := map[string]int{}
+	for _, cs := range iface.cases {
+		if _, amd, order := occClass(cs.Occ); amd {
+			nIfaceAMD[order]++
+		}
+	}
+	if nIfaceAMD["cheap-first"] == 0 || nIfaceAMD["expensive-first"] == 0 {
+		vlib.Infra("%s printed no operation in which two occurrences of one interface field have different most expensive implementors in both orders (vacuous): %v", ifaceCfg, nIfaceAMD)
+	}
+	add("iface", iface.cases)
 	nHist := 0
 	for i, h := range gate.cases {
 		if len(h.Hist) == 0 {
@@ -1418,10 +1568,11 @@ func main() {
 	// 5. non-vacuity and evidence
 	if k.rejected == 0 || k.admitted == 0 || k.stats == 0 || k.multi == 0 || k.spreads == 0 || k.iface == 0 || k.argvar == 0 || k.sat == 0 || k.respread == 0 || k.histReqs == 0 || k.histCached == 0 ||
 		k.nonFirst == 0 || k.nonFirstRej == 0 || k.nonFirstAdm == 0 || k.cells == 0 || k.cellsNonFirstCustom == 0 || k.cellsExtra == 0 || nTable == 0 ||
+		k.ifaceRep == 0 || k.ifaceAMD == 0 || k.ifaceCheapFirst == 0 || k.ifaceExpFirst == 0 || k.ifaceAMDFrag == 0 || k.ifaceAMDNested == 0 || k.ifaceAMDRej == 0 || k.ifaceAMDAdm == 0 ||
 		k.ctxPre == 0 || k.ctxDuring == 0 || k.ctxOver == 0 || k.ctxWithin == 0 || k.duringFired == 0 || k.calcCtx == 0 || k.calcCtxDuringFired == 0 || nCtxHist == 0 {
 		vlib.Infra("vacuous run: %+v", k)
 	}
-	c.Set("rule", "TLC enumerates every selection tree over the abstract schema (objects, interface Node with implementors A/B/Named, union U; fields, arguments, inline fragments, fragment spreads, __typename, __schema) with at most MaxSize nodes (quick 3, thorough 4; siblings in canonical order, the concretiser permutes them) x every assignment of the cost-function family {const 0/2/-1/H/H+1/MAX-1/MAX, child+0/2/MAX-1, child*2, child-1, child+arg} to at most two Type.field slots plus the uniform assignments, plus the safeAdd grid corpus (7 two-cost operation shapes x all pairs of the 12-point int boundary grid), plus the fragment corpus (one named fragment spread 2-3 times: sibling fields, different parent types, nested, twice in one selection set, inside another fragment; 30 shapes x cost pairs incl. child*k); the spec prescribes Cx and the gate decision for limits {Cx-1, Cx, Cx+1, 0, MAX}. Each case runs against complexity.Calculate and an HTTP POST per limit on handler.Server+ComplexityLimit, over a hand-written ExecutableSchema and over generated servers (both layouts). ComplexityGate.tla adds histories: one server (query cache none/MapCache/lru/lru of size 1) receives every sequence of 2 (thorough 3, optionally another query text in between) requests with the same query text whose cost depends on the request variable $n in {absent, 3, 100} at limit Cx-1 or Cx; each request is judged against its own prescribed decision. Custom cost functions are configured per ComplexityRoot ENTRY; the binding (state bnd: which entry serves which GraphQL field) is part of the model, and the object Sh has entries shared by 2-3 GraphQL fields in every way gqlgen supports (gqlgen.yml fieldName, @goField(name:), new_foo/newFoo collapsing to one Go name, a resolver-backed field sharing the Go name, struct field and method with an argument; declared first/second/last). The bind corpus sends operations through EVERY field of every group (alone, two of a group side by side, below one named fragment spread twice, two groups side by side; arguments as literal/variable/variable default) x cost assignments on the shared entry, its parent and its child, with the gate limits as above; and the Complexity() table calls the generated ExecutableSchema.Complexity(type, field, child, args) directly for EVERY (type, field) of the probe's schema x child in {0,4} x argument absent/set under {each entry alone with const 2 / child+2 / child+arg, all entries const 7, none} and compares with the specification's GenComplexity (fields outside the abstract schema are served by their own, never configured, entry). The request CONTEXT is state of the gate machine too (ComplexityGate Mode ctx: Arrive / PriceCall / DecideReq; a context is live, done before pricing (cancelled or deadline passed) or becomes done in the k-th call of a custom complexity function - user code, which the harness lets cancel the request context from inside) and no decision reads it: 4 query texts calling 2-4 custom functions x every sequence of 2 requests x limit Cx-1/Cx x every such context point are sent to one server (request context pre-cancelled / deadline in the past / cancelled from inside the k-th ComplexityRoot function while ComplexityLimit prices the operation) and complexity.Calculate is called under the same contexts; in addition every case of every corpus calls complexity.Calculate once more under a cancelled / deadline-exceeded / cancelled-in-call-1-or-2 context. Over the limit => rejected and no resolver ran, whatever the context; the number is the same whatever the context. A class is distinct by (tree shape, cost-assignment class, limit relation or cache kind + request sequence incl. context points) resp. (type.field, way of binding and declaration position, cost class, argument, custom or not).")
+	c.Set("rule", "TLC enumerates every selection tree over the abstract schema (objects, interface Node with implementors A/B/Named, union U; fields, arguments, inline fragments, fragment spreads, __typename, __schema) with at most MaxSize nodes (quick 3, thorough 4; siblings in canonical order, the concretiser permutes them) x every assignment of the cost-function family {const 0/2/-1/H/H+1/MAX-1/MAX, child+0/2/MAX-1, child*2, child-1, child+arg} to at most two Type.field slots plus the uniform assignments, plus the safeAdd grid corpus (7 two-cost operation shapes x all pairs of the 12-point int boundary grid), plus the fragment corpus (one named fragment spread 2-3 times: sibling fields, different parent types, nested, twice in one selection set, inside another fragment; 30 shapes x cost pairs incl. child*k); the spec prescribes Cx and the gate decision for limits {Cx-1, Cx, Cx+1, 0, MAX}. Each case runs against complexity.Calculate and an HTTP POST per limit on handler.Server+ComplexityLimit, over a hand-written ExecutableSchema and over generated servers (both layouts). ComplexityGate.tla adds histories: one server (query cache none/MapCache/lru/lru of size 1) receives every sequence of 2 (thorough 3, optionally another query text in between) requests with the same query text whose cost depends on the request variable $n in {absent, 3, 100} at limit Cx-1 or Cx; each request is judged against its own prescribed decision. Custom cost functions are configured per ComplexityRoot ENTRY; the binding (state bnd: which entry serves which GraphQL field) is part of the model, and the object Sh has entries shared by 2-3 GraphQL fields in every way gqlgen supports (gqlgen.yml fieldName, @goField(name:), new_foo/newFoo collapsing to one Go name, a resolver-backed field sharing the Go name, struct field and method with an argument; declared first/second/last). The bind corpus sends operations through EVERY field of every group (alone, two of a group side by side, below one named fragment spread twice, two groups side by side; arguments as literal/variable/variable default) x cost assignments on the shared entry, its parent and its child, with the gate limits as above; and the Complexity() table calls the generated ExecutableSchema.Complexity(type, field, child, args) directly for EVERY (type, field) of the probe's schema x child in {0,4} x argument absent/set under {each entry alone with const 2 / child+2 / child+arg, all entries const 7, none} and compares with the specification's GenComplexity (fields outside the abstract schema are served by their own, never configured, entry). The request CONTEXT is state of the gate machine too (ComplexityGate Mode ctx: Arrive / PriceCall / DecideReq; a context is live, done before pricing (cancelled or deadline passed) or becomes done in the k-th call of a custom complexity function - user code, which the harness lets cancel the request context from inside) and no decision reads it: 4 query texts calling 2-4 custom functions x every sequence of 2 requests x limit Cx-1/Cx x every such context point are sent to one server (request context pre-cancelled / deadline in the past / cancelled from inside the k-th ComplexityRoot function while ComplexityLimit prices the operation) and complexity.Calculate is called under the same contexts; in addition every case of every corpus calls complexity.Calculate once more under a cancelled / deadline-exceeded / cancelled-in-call-1-or-2 context. Over the limit => rejected and no resolver ran, whatever the context; the number is the same whatever the context. The iface corpus: interface Box {id, items(x): A, inner: Box} with the object implementors Shelf and Archive; ONE operation selects Box.items / Box.inner several times with different arguments (3 / 100 / absent) and sub-selections (children's cost 1 / 2 / 4) - as aliased siblings, below two selections of the parent, inside a named fragment (before / after / spread twice), inside an inline fragment, nested below Box.inner, three times - every context in both orders (the concretiser keeps the sibling order of these trees) x {none, one entry, two entries} from {const 50, child*3, child+x, x*(1+child)} on Shelf.items / Archive.items and {const 50, child*2, child+50} on Shelf.inner / Archive.inner plus 5 assignments on 3-4 entries, so that the most expensive implementor differs between two occurrences of one field (the specification prints per occurrence its cost and argmax set; theorems TOccMax, TOccIndep, TPerm). A class is distinct by (tree shape, cost-assignment class, limit relation or cache kind + request sequence incl. context points) resp. (type.field, way of binding and declaration position, cost class, argument, custom or not).")
 	c.Set("exhaustive", true)
 	c.Set("tlc", map[string]any{
 		"small_theorems": map[string]any{"distinct": small.res.Distinct, "wall_s": small.res.WallS},
@@ -1431,6 +1582,7 @@ func main() {
 		"gate_histories": map[string]any{"config": gateCfg, "distinct": gate.res.Distinct, "histories": len(gate.cases), "wall_s": gate.res.WallS},
 		"corpus":         map[string]any{"config": genCfg, "distinct": gen.res.Distinct, "cases": len(gen.cases), "wall_s": gen.res.WallS},
 		"gate_contexts":  map[string]any{"config": "MC_ComplexityGate_ctx.cfg", "distinct": gctx.res.Distinct, "histories": len(gctx.cases), "wall_s": gctx.res.WallS},
+		"interface_field_repeated": map[string]any{"config": ifaceCfg, "distinct": iface.res.Distinct, "cases": len(iface.cases), "cases_argmax_differs_by_order": nIfaceAMD, "wall_s": iface.res.WallS},
 		"shared_entries": map[string]any{"distinct": bind.res.Distinct, "cases": len(bind.cases), "operations": len(bindOps), "table_assignments": nTable, "wall_s": bind.res.WallS},
 	})
 	c.Set("concrete_cases", len(concs))
@@ -1442,6 +1594,10 @@ func main() {
 		"complexity_table_cells": k.cells, "table_cells_custom_cost_via_non_first_field": k.cellsNonFirstCustom, "table_cells_of_fields_outside_the_abstract_schema": k.cellsExtra,
 		"requests_context_done_before_pricing": k.ctxPre, "requests_context_cancelled_during_pricing": k.ctxDuring, "of_them_cancel_hook_fired": k.duringFired,
 		"context_requests_over_limit": k.ctxOver, "context_requests_within_limit": k.ctxWithin, "of_them_executed_without_errors": k.ctxWithinExecuted,
+		"cases_selecting_one_interface_field_repeatedly": k.ifaceRep, "of_them_most_expensive_implementor_differs_between_occurrences": k.ifaceAMD,
+		"of_them_cheap_occurrence_priced_first": k.ifaceCheapFirst, "of_them_expensive_occurrence_priced_first": k.ifaceExpFirst,
+		"of_them_through_fragments": k.ifaceAMDFrag, "of_them_nested": k.ifaceAMDNested,
+		"their_requests_over_limit_rejected_nothing_ran": k.ifaceAMDRej, "their_requests_within_limit_executed": k.ifaceAMDAdm,
 		"calculate_calls_under_a_non_live_context": k.calcCtx, "of_them_cancelled_from_inside_a_custom_function": k.calcCtxDuringFired})
 	c.Set("binding", schemaA.Binding)
 	// on a tree without violations every "during" request must really have been cancelled from inside pricing
@@ -1469,6 +1625,13 @@ func main() {
 	pick(func(cc *Conc) bool {
 		return cc.Src == "frag" && strings.Contains(cc.CostCls, "mul") && len(cc.Case.Costs) == 2
 	})
+	for _, cc := range concs {
+		if cc.Src == "iface" && cc.IfaceAMD && cc.IfaceOrder == "cheap-first" && cc.IfaceHow == "siblings" && len(cc.Case.Costs) == 2 && strings.Contains(cc.CostCls, "argmul") {
+			c.Sample(map[string]any{"query": cc.Case.Query, "opname": cc.Case.OpName, "vars": cc.Case.Vars, "costs": cc.Case.Costs,
+				"interface_field_occurrences_in_pricing_order": cc.Abs.Occ, "cx": cc.Cx, "limits": cc.Case.Limits, "rejected": cc.Rej})
+			break
+		}
+	}
 	for _, cc := range concs {
 		if cc.Src == "hist" && cc.Case.Cache == "lru" && cc.Rej[0] != cc.Rej[len(cc.Rej)-1] {
 			c.Sample(map[string]any{"query": cc.Case.Query, "cache": cc.Case.Cache, "costs": cc.Case.Costs, "history": cc.Case.Hist, "cx": cc.CxRun, "rejected": cc.Rej})
